@@ -1,4 +1,5 @@
 import SlogModel.Lemmas.E2E
+import SlogModel.Lemmas.ClientRefine
 import SlogModel.Gen.Facts
 
 /-!
@@ -114,6 +115,69 @@ def demoActs : List Act := [.read, .read, .flushAccept, .read, .flushAccept, .ta
 example : (run ({} : St) demoActs).map (·.acked) = some [1, 0, 2] := by decide
 example : (run ({} : St) demoActs).map (·.sentLog) = some [(0, 0), (0, 1), (2, 0), (2, 2)] := by decide
 example : (run ({} : St) demoActs).map (fun s => s.queue ++ s.inflight ++ s.disk) = some [] := by decide
+
+/-! ### refinement: the client transition system implements the client-side actions of `E2E.step`
+
+`E2E.step` assumes of the forwarding client that a chunk it takes is the oldest one waiting, that an
+acknowledgement removes exactly the acknowledged chunk, that after a failed connection everything
+unacknowledged goes back oldest first ahead of everything newer, and that a stop leaves everything
+unacknowledged for the disk.  These are not assumptions any more: for every run of `Client.step` (every
+interleaving of sender, acknowledger and worker loop with every outcome of connect / send / ACK read) the
+chunk-level view of the client state (`ClientRefine.Rel`: waiting = `queue`, held by the session =
+`inflight`, confirmations = `acked`, handed back + never taken = `disk`) moves exactly as `E2E.step`
+does under `ClientRefine.mapAct` — each client action is invisible or one of take / ack / connFail / stop. -/
+
+open ClientRefine in
+/-- **C01 (the client refines the chunk-level system).** -/
+theorem C01_client_refines_e2e (q : List Nat) (hq : q.Pairwise (· < ·)) (acts : List Client.Act) (c : Client.St)
+    (h : Client.run (Client.init q) acts = some c)
+    (e0 : St) (hr : e0.running = true) (hc : e0.cur = []) (hi : e0.inflight = []) (hq0 : e0.queue = q) :
+    ∃ e, run e0 (mapRun (Client.init q) acts) = some e ∧ Rel e0.acked c e ∧
+      (mapRun (Client.init q) acts).length ≤ acts.length :=
+  let ⟨e, h1, h2⟩ := sim_run e0.acked acts (Client.init q) c e0 h (init_all q hq) (rel_init q e0 hr hc hi hq0)
+  ⟨e, h1, h2, mapRun_length acts _⟩
+
+open ClientRefine in
+/-- **C01 (at rest, with the real client in the loop).** Whatever the agent did before (`pre`: any history of reads,
+flushes, drops, earlier faults and generations) and whatever the client then does with the chunks queued for it — any
+run of `Client.step` up to `OnFinished` — every record read so far is in a chunk that the upstream acknowledged (before or
+through this client), that the client handed back or never took (so that the buffer saves it), or that was counted as dropped. -/
+theorem C01_at_rest_through_client (pre : List Act) (e0 : St) (hpre : run {} pre = some e0)
+    (hr : e0.running = true) (hc : e0.cur = []) (hi : e0.inflight = []) (hq : e0.queue.Pairwise (· < ·))
+    (acts : List Client.Act) (c : Client.St) (h : Client.run (Client.init e0.queue) acts = some c) (hfin : c.finished = true)
+    (r : Nat) (hrec : r < e0.nextRec) :
+    ∃ p ∈ e0.content, r ∈ p.2 ∧
+      (p.1 ∈ e0.acked ∨ p.1 ∈ c.confirmed ∨ p.1 ∈ c.handed ∨ p.1 ∈ c.queue ∨ p.1 ∈ e0.dropped) := by
+  obtain ⟨e, h1, hrel, _⟩ := C01_client_refines_e2e e0.queue hq acts c h e0 hr hc hi rfl
+  have hfr := run_frame _ e0 e h1 (mapRun_clientSide acts _) hc
+  have hrun : run {} (pre ++ mapRun (Client.init e0.queue) acts) = some e := by
+    rw [e2e_run_append, hpre]; exact h1
+  obtain ⟨hstop, _, _, hdisk⟩ := hrel.fin hfin
+  obtain ⟨p, hp1, hp2, hp3⟩ := C01_at_rest _ e hrun hstop r (by rw [hfr.nextRec]; exact hrec)
+  refine ⟨p, by rw [← hfr.content]; exact hp1, hp2, ?_⟩
+  rw [hrel.acked, hdisk, hfr.dropped] at hp3
+  simp only [List.mem_append] at hp3
+  rcases hp3 with (h | h) | (h | h) | h
+  · exact Or.inl h
+  · exact Or.inr (Or.inl h)
+  · exact Or.inr (Or.inr (Or.inl h))
+  · exact Or.inr (Or.inr (Or.inr (Or.inl h)))
+  · exact Or.inr (Or.inr (Or.inr (Or.inr h)))
+
+/-- non-vacuity: a client run with a failed connection, a resend and a stop, mapped to its chunk-level run -/
+def demoClient : List Client.Act :=
+  [.connectOk, .recoveryDone, .takeInput, .sendOk, .pushAck, .takeInput, .sendOk, .ackRecv, .ackErr, .beginCollect,
+   .finishCollect, .connectOk, .takeLeft, .sendOk, .pushAck, .ackRecv, .ackOk none, .stopReq, .beginCollect, .ackChanClosed,
+   .finishCollect, .workerFinal]
+
+example : ClientRefine.mapRun (Client.init [0, 1, 2]) demoClient = [.take, .take, .connFail, .take, .ack 0, .connFail, .stop] := by
+  simp [demoClient, ClientRefine.mapRun, ClientRefine.mapAct, Client.run, Client.step, Client.init, Client.newLeft, Client.dedupSorted, Client.ackCap, List.mergeSort, List.MergeSort.Internal.splitInTwo, run, step, closeChunk, sortIds, ins]
+example : (Client.run (Client.init [0, 1, 2]) demoClient).map (fun c => (c.confirmed, c.handed, c.queue, c.finished)) =
+    some ([0], [1], [2], true) := by
+  simp [demoClient, ClientRefine.mapRun, ClientRefine.mapAct, Client.run, Client.step, Client.init, Client.newLeft, Client.dedupSorted, Client.ackCap, List.mergeSort, List.MergeSort.Internal.splitInTwo, run, step, closeChunk, sortIds, ins]
+example : (run { queue := [0, 1, 2] } (ClientRefine.mapRun (Client.init [0, 1, 2]) demoClient)).map (fun e => (e.acked, e.disk, e.running)) =
+    some ([0], [1, 2], false) := by
+  simp [demoClient, ClientRefine.mapRun, ClientRefine.mapAct, Client.run, Client.step, Client.init, Client.newLeft, Client.dedupSorted, Client.ackCap, List.mergeSort, List.MergeSort.Internal.splitInTwo, run, step, closeChunk, sortIds, ins]
 
 /-! ### fact obligations (Tie B): the mechanisms behind the actions of `E2E.step` -/
 
